@@ -695,3 +695,28 @@ SUBCHECKS = [
     SubCheck("bcs_game", check_bcs, _bcs_case, nt_bcs, quick=1200, thorough=20000),
     SubCheck("history", HISTORY.replay, machine=HISTORY, nontrivial=nt_history, quick=20, thorough=300, case_timeout=400),
 ]
+
+
+# ------------------------------------------------------------------------------------------------
+# the SDP-valued methods on 0/1 predicates stored as int64 / bool / float32 (added after seeded change C07-u3 - the
+# objective weights of the NPA bound allocated with the predicate's dtype - was missed: only classical_value was ever
+# given a non-float64 predicate)
+# ------------------------------------------------------------------------------------------------
+def check_sdp_values_dtype(case):
+    prob, pred = H.build_game(case["game"])
+    ref_game = _Game()(prob.copy(), pred.astype(float))
+    typed = _Game()(prob.copy(), pred.astype(case["dtype"]))
+    exp_c, _how = H.classical_oracle(prob, pred)
+    for name, call in (
+        ("nonsignaling_value", lambda g: H.call_value(g.nonsignaling_value)),
+        ("npa[1]", lambda g: H.call_value(g.commuting_measurement_value_upper_bound, 1)),
+    ):
+        a, b = call(ref_game), call(typed)
+        if a is None or b is None:
+            raise Inconclusive("solver-no-value:" + name)
+        req(abs(a - b) <= 2e-3, f"{name} = {b:.6f} for the predicate stored as {case['dtype']} but {a:.6f} for the same predicate as float64", "sdp-value-depends-on-predicate-dtype")
+        req(b >= exp_c - 2e-3, f"{name} = {b:.6f} (predicate dtype {case['dtype']}) is below the classical value {exp_c:.6f}", "upper-bound-below-classical")
+        req(b <= 1 + 2e-3, f"{name} = {b:.6f} (predicate dtype {case['dtype']}) exceeds 1", "value>1")
+
+
+SUBCHECKS.append(SubCheck("sdp_values_pred_dtype", check_sdp_values_dtype, _dtype_case, lambda c: f"dtype={c['dtype']}", quick=48, thorough=600, case_timeout=90))
